@@ -86,3 +86,16 @@ type (
 	InvalidIsValidFlagError                  = common.InvalidIsValidFlagError
 	PlutusScriptValidationUnsupportedError   = common.PlutusScriptValidationUnsupportedError
 )
+
+type TooManyCollateralInputsError struct {
+	Provided uint
+	Max      uint
+}
+
+func (e TooManyCollateralInputsError) Error() string {
+	return fmt.Sprintf(
+		"too many collateral inputs: provided %d, maximum %d",
+		e.Provided,
+		e.Max,
+	)
+}
